@@ -391,6 +391,13 @@ func VerifC14_EnsureRoutesWrites() {
 	} else {
 		verifrt.Assert(len(c.Log) == 1 && len(c.Writes("patch", "Ingress")) == 1, "C14.ensure.onePatch")
 	}
+	// "done" means the stored canary Ingress already carries exactly the annotations of this step — nothing of an
+	// earlier step is left on it (a patch is issued whenever they differ in either direction)
+	desired, lerr := r.executeLuaForCanary(c14Copy(canary.Annotations), s.weight, s.matches, s.modifier)
+	if lerr == nil {
+		keys := append([]string{"kubernetes.io/ingress.class", "user/team"}, c14Managed(class)...)
+		verifrt.Assert(done == c14SameMap(canary.Annotations, desired, keys), "C14.ensure.doneIffStoredAnnotationsAreTheSteps")
+	}
 	verifrt.Cover("C14.ensure.done")
 }
 
